@@ -1,14 +1,10 @@
-// simchain: L1/L2 simulator binary (full OsmosisApp engines).
+// sim-router: L1 simulator binary with only the router engine (C05).
 package main
 
 import (
 	"os"
 
-	_ "verif/harness/engines/authz"
-	_ "verif/harness/engines/cl"
-	_ "verif/harness/engines/lockup"
-	_ "verif/harness/engines/mint"
-	_ "verif/harness/engines/superfluid"
+	_ "verif/harness/engines/router"
 	"verif/harness/simchain"
 	"verif/harness/simcore"
 )
@@ -22,10 +18,7 @@ func main() {
 	simcore.AtExit = simchain.Cleanup
 	base := 0
 	simcore.ShouldRecycle = func() bool {
-		if simchain.AppsBuilt()-base >= 400 {
-			return true
-		}
-		return false
+		return simchain.AppsBuilt()-base >= 400
 	}
 	simcore.Main()
 }
